@@ -8,6 +8,7 @@ Observation checker: every write is a well-formed frame; a reference NCP (first.
 receives exactly each completely transmitted request's header + parameter bytes; fragments of one
 message are never interleaved with another's; no request returns before its last fragment went out.
 """
+import priv
 import hostdrive
 
 ASSUMPTIONS = ["events arrive at quiescent points of the event loop; timer ties are avoided by construction "
@@ -49,7 +50,7 @@ def reconnect_scenarios(ctx):
             acks_before = r.randrange(0, 3)
             w.start(1, K[first_kind][0](1), 9.0)
             for _ in range(acks_before):
-                w.rx(streams.ack(w.p._pack_seq))
+                w.rx(streams.ack(priv.pack_seq(w.p)))
             hist = ["start %s" % first_kind] + ["ACK"] * acks_before
             if r.random() < 0.3:
                 w.start(2, K[r.choice("DWG")][0](2), 9.5); hist.append("start second")
@@ -65,7 +66,7 @@ def reconnect_scenarios(ctx):
                     break
                 x = r.random()
                 if x < 0.5:
-                    w.rx(streams.ack(w.p._pack_seq)); hist.append("ACK")
+                    w.rx(streams.ack(priv.pack_seq(w.p))); hist.append("ACK")
                 elif x < 0.6 and nxt < 5:
                     nxt += 1
                     w.start(nxt, K[r.choice("DWZ")][0](nxt), 11.0 + nxt); hist.append("start another")
